@@ -31,6 +31,22 @@ prop(
     thorough=dict(checks=150000, shards=16, fuzz=[("FuzzC13", 45)]),
 )
 
+GRAPH_RULE = ("multi-document reference graphs from gen.Graph: 1-5 documents at file/http/https URLs in different directories (incl. the prefix-confusable root.json2), "
+              "definitions/parameters/responses/path items with hostile names, schema trees over every sub-schema keyword, $ref holes wired to any position of the right kind "
+              "(multi-hop chains, back references, ancestors => cycles) and spelled fragment-only / relative / ./ / absolute. ")
+
+prop(
+    "C02",
+    title="Expansion preserves the meaning of every element (bisimilar reference graphs)",
+    technique="property-based testing (rapid) against an independent reference model: RFC 3986 + RFC 6901 resolution on decoded JSON, meaning compared by bisimulation of input and output reference graphs",
+    rule=GRAPH_RULE + "Each graph is expanded (ExpandSpec, AbsoluteCircularRef drawn) twice from fresh decodes. Non-trivial = the graph has a cross-document $ref, a chain of >=2 hops or a cycle; distinct by hash of the canonical JSON of all documents",
+    design_ref="DESIGN.md §4 C02",
+    level_text="exploration: thousands (quick) to ~10^5 (thorough) random reference graphs, each expanded and compared element by element with the model's co-inductive unfolding; every content node carries a unique label so a resolution in the wrong document is visible",
+    level_note="the oracle's notion of meaning is the model in harness/model (net/url.ResolveReference + own JSON-pointer evaluator); `$ref` siblings are ignored as the code documents; elements whose own $ref chain never reaches content are exempt",
+    quick=dict(checks=700, shards=4),
+    thorough=dict(checks=6000, shards=16),
+)
+
 
 def manifest():
     allids = []
